@@ -347,9 +347,23 @@ Theorem C18_http_server_requests_prefix :
     let '(ess, c) := srv_deliver_all callback sconn0 chunks in
     let '(ei, di) := http_feed_all http_init chunks in
     hreqs ei = requests_of (concat ess) ++ hreqs (fst (drain c)) /\
-    snd (drain c) = di /\ ~ In SOof (concat ess).
+    snd (drain c) = di /\ ~ In SOof (concat ess) /\
+    (In SAssert (concat ess) -> d_abandoned di = true).
 Proof. exact server_requests_prefix. Qed.
 Print Assumptions C18_http_server_requests_prefix.
+
+(* FINDING (http-bytes-after-rejected-request-line): HttpServer answers a rejected request line
+   with 400 + shutdown() but neither resets the context nor stops reading.  When the rejected line
+   had a valid method, HttpRequest::setMethod has already stored it; the next bytes that arrive make
+   parseRequest run processRequestLine on the same, unconsumed line and
+   assert(method_ == kInvalid) (HttpRequest.h:55) fails.  Refuted: "no input makes the decoder
+   fail"; partial (last conjunct above): it can only happen after a request line was rejected,
+   i.e. when the ideal decoder has abandoned the stream. *)
+Theorem C18_http_server_assert_refuted :
+  exists chunks, In SAssert (concat (fst (srv_deliver_all ex_callback sconn0 chunks))) /\
+                 length chunks = 2%nat.
+Proof. exact server_assert_refuted. Qed.
+Print Assumptions C18_http_server_assert_refuted.
 
 (* ... and the server as a whole is not segmentation invariant (the property text claims it for
    the request PARSER only): two pipelined requests in one delivery => one is answered now. *)
